@@ -1233,26 +1233,17 @@ enomem:
  **********************************************************************/
 
 /*
- * parse_and_descend: parse the expression and descend down the tree
- *   @parser:  address of caller-allocated parser state structure
+ * descend: descend down the tree following an already parsed expression
+ *   @parser:  parser state filled in by parse
  *   @rootptr: address of property data root
  *   @set:     force the tree to conform to the indicated expression
- *   @format:  printf-like format string forming the property expression
- *   @ap       variable argument pointer
  */
-static vnaproperty_t **parse_and_descend(parser_t *parser,
-	vnaproperty_t **rootptr, bool set, const char *format, va_list ap)
+static vnaproperty_t **descend(parser_t *parser,
+	vnaproperty_t **rootptr, bool set)
 {
     vnaproperty_t **anchor = rootptr;
     vnaproperty_t *node = *anchor;
     vnaproperty_t *collection = NULL;
-
-    /*
-     * Parse the expression.
-     */
-    if (parse(parser, format, ap) == -1) {
-	return NULL;
-    }
 
     /*
      * Following the expression list, walk down the tree.
@@ -1403,6 +1394,23 @@ error:
     parser_undo_insert(parser);
     parser_free(parser);
     return NULL;
+}
+
+/*
+ * parse_and_descend: parse the expression and descend down the tree
+ *   @parser:  address of caller-allocated parser state structure
+ *   @rootptr: address of property data root
+ *   @set:     force the tree to conform to the indicated expression
+ *   @format:  printf-like format string forming the property expression
+ *   @ap       variable argument pointer
+ */
+static vnaproperty_t **parse_and_descend(parser_t *parser,
+	vnaproperty_t **rootptr, bool set, const char *format, va_list ap)
+{
+    if (parse(parser, format, ap) == -1) {
+	return NULL;
+    }
+    return descend(parser, rootptr, set);
 }
 
 /*
@@ -1633,13 +1641,13 @@ int vnaproperty_vset(vnaproperty_t **rootptr, const char *format, va_list ap)
     vnaproperty_t *value = NULL;
     int rv = -1;
 
-    if ((anchor = parse_and_descend(&parser, rootptr, /*set*/true,
-		    format, ap)) == NULL) {
+    if (parse(&parser, format, ap) == -1) {
 	return -1;
     }
 
     /*
-     * Make sure we're not trying to assign to a map or list.
+     * Validate the whole argument before the tree is modified.  Make
+     * sure we're not trying to assign to a map or list.
      */
     switch (parser.prs_tail->ex_type) {
     case E_MAP_ELEMENT:
@@ -1675,6 +1683,14 @@ int vnaproperty_vset(vnaproperty_t **rootptr, const char *format, va_list ap)
     default:
 	errno = EINVAL;
 	goto out;
+    }
+
+    /*
+     * Make the tree conform to the expression.
+     */
+    if ((anchor = descend(&parser, rootptr, /*set*/true)) == NULL) {
+	vnaproperty_free(value);
+	return -1;
     }
 
     /*
@@ -1805,22 +1821,22 @@ vnaproperty_t **vnaproperty_vset_subtree(vnaproperty_t **rootptr,
     scanner_t *scanner = &parser.prs_scn;
     vnaproperty_t **anchor;
 
-    if ((anchor = parse_and_descend(&parser, rootptr,
-		    /*set*/true, format, ap)) == NULL) {
+    if (parse(&parser, format, ap) == -1) {
 	return NULL;
     }
 
     /*
-     * Make sure there are no unexpected trailing tokens.
+     * Make sure there are no unexpected trailing tokens before the
+     * tree is modified.
      */
     if (scanner->scn_token != T_EOF) {
 	errno = EINVAL;
-	anchor = NULL;
-	parser_undo_insert(&parser);
-	goto out;
+	parser_free(&parser);
+	return NULL;
     }
-
-out:
+    if ((anchor = descend(&parser, rootptr, /*set*/true)) == NULL) {
+	return NULL;
+    }
     parser_free(&parser);
     return anchor;
 }
